@@ -81,6 +81,36 @@ def puncture {Seed : Type} (g : Bool → Seed → Seed) (inpLen : Nat) (k : Key 
 /-- `GGMPuncturableKey::new` given the two first-level seeds (`prg_b.eval(secret)`) -/
 def initKey {Seed : Type} (s0 s1 : Seed) : Key Seed := ⟨[([false], s0), ([true], s1)], []⟩
 
+/-- one call of the public `PPRF` API on a `GGM` value -/
+inductive Op where
+  | eval (input : Bytes)
+  | puncture (input : Bytes)
+  deriving DecidableEq, Repr
+
+/-- what the caller observes: `eval` fills the output buffer or fails, `puncture` returns `Ok(())`
+or fails -/
+inductive Out (Seed : Type) where
+  | evalRes (r : Except Err Seed)
+  | punctRes (r : Except Err Unit)
+
+/-- one API call on key `k`: `eval` takes `&self` (the key cannot change); `puncture` takes
+`&mut self` and every `Err` return happens before the first mutation of `self.key`, so on failure
+the caller still holds `k`. -/
+def step {Seed : Type} (g : Bool → Seed → Seed) (inpLen : Nat) (k : Key Seed) : Op → Key Seed × Out Seed
+  | .eval input => (k, .evalRes (eval g inpLen k input))
+  | .puncture input =>
+    match puncture g inpLen k input with
+    | .ok k' => (k', .punctRes (.ok ()))
+    | .error e => (k, .punctRes (.error e))
+
+/-- a whole history of API calls: final key and the outputs in order -/
+def run {Seed : Type} (g : Bool → Seed → Seed) (inpLen : Nat) : Key Seed → List Op → Key Seed × List (Out Seed)
+  | k, [] => (k, [])
+  | k, op :: ops =>
+    let r := step g inpLen k op
+    let r2 := run g inpLen r.1 ops
+    (r2.1, r.2 :: r2.2)
+
 /-- the STROBE-based PRG `GGMPseudorandomGenerator::eval` with key `key` -/
 def prgEval (F : Perm) (key : Bytes) (input : Bytes) : Bytes :=
   let t := Strobe.ad F (Strobe.key F (Strobe.new F (Bytes.ofString Params.ggmEvalLabel)) key) input
